@@ -63,6 +63,13 @@ pub fn run(ctx: &Ctx, rep: &mut Report) {
                 u.advance(EON);
                 rep.count("eon-before-step");
             }
+            // an upgrade to the same code and a migration do not restart or stop the clock
+            if rng.chance(1, 8) {
+                let ga = g.addr.clone();
+                if u.upgrade_and_migrate(&ga).is_ok() {
+                    rep.count("upgrade-and-migrate");
+                }
+            }
             let t = t.max(u.time());
             u.advance_to_time_paced(t, pace);
             let cand = gen_wellformed_set(&mut rng, &mut ring, 3);
